@@ -1,6 +1,6 @@
-(* C14 — property theorems only.  Proofs are in C14/Proofs.v. *)
+(* C14 — property theorems only.  Proofs are in C14/Proofs.v, C14/Frac.v (fractions, times, date and time), C14/Dtd.v (durations). *)
 From Coq Require Import ZArith Bool List String Ascii.
-From DV Require Import Base.Calendar C15.Model C14.Model C14.Proofs.
+From DV Require Import Base.Calendar C15.Model C14.Model C14.Proofs C14.Frac C14.Dtd.
 Import ListNotations.
 Open Scope string_scope.
 Open Scope Z_scope.
@@ -51,27 +51,51 @@ Proof. exact print_parse_zone. Qed.
 Theorem C14_parse_zone_range : forall db s o, parse_zone db s = Some (ZOffset o) -> o <> 0 /\ -53999 <= o <= 53999.
 Proof. exact parse_zone_range. Qed.
 
-(* --- times.  Proved for whole seconds with every zone; the fractional part (nanoseconds_to_string / fraction_to_nanos
-   round trip) is proved only on the witness grid below and otherwise rests on the correspondence check --- *)
-Theorem C14_print_parse_time_partial : forall db t, t_ns t = 0 -> 0 <= t_h t < 24 -> 0 <= t_mi t < 60 -> 0 <= t_s t < 60 ->
-  zone_ok db (t_zone t) -> parse_time db (print_time t) = Some t.
-Proof. exact print_parse_time_whole. Qed.
+(* --- the fraction: the nine digits with the trailing zeros stripped (nanoseconds_to_string), read back digit by digit
+   (fraction_to_nanos), are the number again: every nanosecond count 0..999999999 --- *)
+Theorem C14_fraction_roundtrip : forall ns, 0 <= ns < 1000000000 ->
+  Forall isdig (frac_digits ns) /\ frac_nanos (frac_digits ns) 100000000 = ns /\
+  exists zs, allzero zs /\ pad9 ns = app (frac_digits ns) zs.
+Proof. exact frac_digits_spec. Qed.
+
+(* --- times: every time of day, every nanosecond fraction, every zone form --- *)
+Theorem C14_print_parse_time : forall db t,
+  0 <= t_h t < 24 -> 0 <= t_mi t < 60 -> 0 <= t_s t < 60 -> 0 <= t_ns t <= 999999999 -> zone_ok db (t_zone t) ->
+  parse_time db (print_time t) = Some t.
+Proof. exact print_parse_time_all. Qed.
 
 (* hour 24, minute or second 60 and above never parse *)
 Theorem C14_parse_time_valid : forall db s t, parse_time db s = Some t ->
   t_h t < 24 /\ t_mi t < 60 /\ t_s t < 60 /\ (forall o, t_zone t = ZOffset o -> o <> 0 /\ -53999 <= o <= 53999).
 Proof. exact parse_time_valid. Qed.
 
-(* finite witness grids (bound = the listed grids): 12 nanosecond values x 9 zones x 3 times of day; x 7 dates; 864 durations *)
-Theorem C14_print_parse_time_grid_partial : forall t, In t time_grid -> parse_time db0 (print_time t) = Some t.
-Proof. exact print_parse_time_grid. Qed.
+(* a parsed fraction is below one second (digits after the ninth are dropped) *)
+Theorem C14_parse_time_ns_range : forall db s t, parse_time db s = Some t -> 0 <= t_ns t < 1000000000.
+Proof. exact parse_time_ns_range. Qed.
 
-Theorem C14_print_parse_datetime_grid_partial : forall d t, In d date_grid -> In t time_grid ->
-  parse_datetime db0 (print_datetime (d, t)) = Some (d, t).
-Proof. exact print_parse_datetime_grid. Qed.
+(* --- date and time: every FEEL date with every time; also through the built-in function's text form --- *)
+Theorem C14_print_parse_datetime : forall db y m d t, feel_date y m d = true ->
+  0 <= t_h t < 24 -> 0 <= t_mi t < 60 -> 0 <= t_s t < 60 -> 0 <= t_ns t <= 999999999 -> zone_ok db (t_zone t) ->
+  parse_datetime db (print_datetime ((y, m, d), t)) = Some ((y, m, d), t) /\
+  bif_date_and_time db (print_datetime ((y, m, d), t)) = Some ((y, m, d), t).
+Proof. exact print_parse_datetime_all. Qed.
 
-Theorem C14_print_parse_dtd_grid_partial : forall n, In n dtd_grid -> parse_dtd (print_dtd n) = Some n.
-Proof. exact print_parse_dtd_grid. Qed.
+(* --- days-and-time durations: every total number of nanoseconds of either sign whose days component is at most 2^64-1
+   (the conversion's own limit: one day more and the printed text does not convert) --- *)
+Theorem C14_print_parse_dtd : forall n, dtd_days n <= u64_max -> parse_dtd (print_dtd n) = Some n.
+Proof. exact print_parse_dtd. Qed.
+
+Theorem C14_print_parse_dtd_bound_tight :
+  parse_dtd (print_dtd (u64_max * DAY_NS + DAY_NS - 1)) = Some (u64_max * DAY_NS + DAY_NS - 1) /\
+  parse_dtd (print_dtd ((u64_max + 1) * DAY_NS)) = None.
+Proof. exact print_parse_dtd_bound_tight. Qed.
+
+(* duration(text) tries years-and-months first: the printed text of either kind comes back as the same kind *)
+Theorem C14_print_parse_duration_dtd : forall n, dtd_days n <= u64_max -> parse_duration (print_dtd n) = Some (DDt n).
+Proof. exact print_parse_duration_dtd. Qed.
+
+Theorem C14_print_parse_duration_ymd : forall n, Z.abs n / 12 <= u64_max -> parse_duration (print_ymd n) = Some (DYm n).
+Proof. exact print_parse_duration_ymd. Qed.
 
 Example C14_nonvacuous :
   parse_date "2024-02-29" = Some (2024, 2, 29) /\ parse_date "2023-02-29" = None /\
@@ -90,9 +114,13 @@ Print Assumptions C14_dtd_normal_form.
 Print Assumptions C14_print_parse_zone_offset.
 Print Assumptions C14_print_parse_zone.
 Print Assumptions C14_parse_zone_range.
-Print Assumptions C14_print_parse_time_partial.
+Print Assumptions C14_fraction_roundtrip.
+Print Assumptions C14_print_parse_time.
 Print Assumptions C14_parse_time_valid.
-Print Assumptions C14_print_parse_time_grid_partial.
-Print Assumptions C14_print_parse_datetime_grid_partial.
-Print Assumptions C14_print_parse_dtd_grid_partial.
+Print Assumptions C14_parse_time_ns_range.
+Print Assumptions C14_print_parse_datetime.
+Print Assumptions C14_print_parse_dtd.
+Print Assumptions C14_print_parse_dtd_bound_tight.
+Print Assumptions C14_print_parse_duration_dtd.
+Print Assumptions C14_print_parse_duration_ymd.
 Print Assumptions C14_nonvacuous.
